@@ -3,6 +3,7 @@ from core import enc, q
 from gen import SeqGen
 
 ID = "C07"
+HEAP_SUMMARY = True      # end every program with the reference-level observation (BB.Model.Heap vs id() walk)
 LEAN_MODULE = "BB.Properties.C07"
 QUICK_N = 250
 THOROUGH_N = 4000
